@@ -119,8 +119,12 @@ func init() {
 		if l.Kind == LField {
 			if as := e.spec.Atomics[e.structName(l.ST)+"."+structOf(l.ST).Field(l.Idx).Name()]; as != nil && as.Rely == "nondecreasing" {
 				if _, hi, ok := intRange(rt); ok {
-					e.sc.assume(implies(g, sx("<=", sx("+", cur, args[1].T), hi)), "assumption: counter never wraps")
-					e.note("atomic counter %s assumed never to wrap (stated in the property: incarnations stay below the largest representable value)", as.Key)
+					// wrap-around is recorded in the ghost flag $wrapped (contracts that need "the counter
+					// never wraps" say so explicitly in their antecedent) instead of being assumed away
+					if _, has := e.spec.Ghosts["$wrapped"]; has {
+						e.regInit("G.$wrapped", "Bool")
+						e.set(st, "G.$wrapped", "Bool", or(e.get(st, "G.$wrapped", "Bool"), sx(">", sx("+", cur, args[1].T), hi)), "ghost: counter wrapped")
+					}
 				}
 			}
 		}
@@ -152,7 +156,7 @@ func init() {
 		e.store(st, l, args[1].T, "atomic swap")
 		return &Val{T: old, Typ: rt, KnownLen: -1}
 	}
-	am := []string{"@arg0field"}
+	am := []string{"@arg0field", "G.$wrapped"}
 	reg([]string{"sync/atomic.AddUint32", "sync/atomic.AddInt32", "sync/atomic.AddUint64", "sync/atomic.AddInt64",
 		"(*sync/atomic.Uint32).Add", "(*sync/atomic.Int32).Add", "(*sync/atomic.Uint64).Add", "(*sync/atomic.Int64).Add"}, am, atomAdd)
 	reg([]string{"sync/atomic.LoadUint32", "sync/atomic.LoadInt32", "sync/atomic.LoadUint64", "sync/atomic.LoadInt64",
@@ -306,6 +310,161 @@ func init() {
 		reg([]string{n}, nil, pureUF(n))
 	}
 
+	// ---- constructors: never return nil / return nil only together with an error ----
+	nonNil := func(e *Eng, fr *Frame, c *ssa.CallCommon, args []*Val, st *State, g string, pos token.Pos) *Val {
+		res := e.havocResults(c, st)
+		sig := c.Signature()
+		first := res
+		if res.Tup != nil {
+			first = res.Tup[0]
+		}
+		fresh := sx(">=", termOfRef(first), e.get(st, frRegion, "Int"))
+		_ = fresh
+		if sig.Results().Len() == 1 {
+			e.sc.assume(implies(g, not(eq(termOfRef(first), "0"))), "constructor result is non-nil")
+		} else {
+			errv := res.Tup[sig.Results().Len()-1]
+			e.sc.assume(implies(g, implies(eq(errv.T, "0"), not(eq(termOfRef(first), "0")))), "constructor result is non-nil unless an error is returned")
+		}
+		return res
+	}
+	reg([]string{"compress/lzw.NewReader", "compress/lzw.NewWriter", "bytes.NewReader", "bufio.NewReader", "bufio.NewReaderSize",
+		"github.com/hashicorp/go-msgpack/v2/codec.NewDecoder", "github.com/hashicorp/go-msgpack/v2/codec.NewEncoder", "github.com/hashicorp/go-msgpack/v2/codec.NewDecoderBytes",
+		"crypto/aes.NewCipher", "crypto/cipher.NewGCM", "container/list.New", "log.New", "strings.NewReader", "io.LimitReader", "io.MultiReader"}, nil, nonNil)
+	reg([]string{"(*bytes.Reader).Len", "(*container/list.List).Len"}, nil, func(e *Eng, fr *Frame, c *ssa.CallCommon, args []*Val, st *State, g string, pos token.Pos) *Val {
+		e.nilCheck(fr, nil, args[0].T, "recv:"+descr(c.Args[0], 0), pos, g)
+		v := e.havocVal(st, "len", types.Typ[types.Int])
+		e.sc.assume(sx(">=", v.T, "0"), "length is non-negative")
+		return v
+	})
+
+	// ---- bytes.Buffer: opaque object with a ghost length (region BL); contents are not modelled here ----
+	const BL = "BL"
+	blGet := func(e *Eng, st *State, ref string) string { return sel(e.get(st, BL, "(Array Int Int)"), ref) }
+	blSet := func(e *Eng, st *State, ref, v string) {
+		e.setStore(st, BL, "(Array Int Int)", ref, v, "bytes.Buffer length")
+	}
+	bufRecv := func(e *Eng, fr *Frame, c *ssa.CallCommon, args []*Val, g string, pos token.Pos) string {
+		e.nilCheck(fr, nil, args[0].T, "buffer:"+descr(c.Args[0], 0), pos, g)
+		return args[0].T
+	}
+	reg([]string{"bytes.NewBuffer"}, []string{frRegion, BL}, func(e *Eng, fr *Frame, c *ssa.CallCommon, args []*Val, st *State, g string, pos token.Pos) *Val {
+		ref := e.alloc(st, "bytes.NewBuffer")
+		blSet(e, st, ref, sx("s_len", args[0].T))
+		return &Val{T: ref, Typ: c.Signature().Results().At(0).Type(), KnownLen: -1}
+	})
+	reg([]string{"(*bytes.Buffer).Len"}, nil, func(e *Eng, fr *Frame, c *ssa.CallCommon, args []*Val, st *State, g string, pos token.Pos) *Val {
+		b := bufRecv(e, fr, c, args, g, pos)
+		n := e.sc.define("buflen", "Int", blGet(e, st, b), "(*bytes.Buffer).Len")
+		e.sc.assume(and(sx(">=", n, "0"), sx("<=", n, "9223372036854775807")), "buffer length range")
+		return &Val{T: n, Typ: types.Typ[types.Int], KnownLen: -1}
+	})
+	reg([]string{"(*bytes.Buffer).Bytes"}, []string{frRegion}, func(e *Eng, fr *Frame, c *ssa.CallCommon, args []*Val, st *State, g string, pos token.Pos) *Val {
+		b := bufRecv(e, fr, c, args, g, pos)
+		v := e.havocVal(st, "bufbytes", c.Signature().Results().At(0).Type())
+		e.sc.assume(eq(sx("s_len", v.T), blGet(e, st, b)), "len(buf.Bytes()) == buf.Len()")
+		e.note("bytes.Buffer.Bytes() is modelled as a snapshot of the buffer (aliasing with later writes not modelled)")
+		return v
+	})
+	reg([]string{"(*bytes.Buffer).WriteByte"}, []string{BL}, func(e *Eng, fr *Frame, c *ssa.CallCommon, args []*Val, st *State, g string, pos token.Pos) *Val {
+		b := bufRecv(e, fr, c, args, g, pos)
+		blSet(e, st, b, sx("+", blGet(e, st, b), "1"))
+		return &Val{T: "0", Typ: c.Signature().Results().At(0).Type(), KnownLen: -1}
+	})
+	reg([]string{"(*bytes.Buffer).Write", "(*bytes.Buffer).WriteString"}, []string{BL}, func(e *Eng, fr *Frame, c *ssa.CallCommon, args []*Val, st *State, g string, pos token.Pos) *Val {
+		b := bufRecv(e, fr, c, args, g, pos)
+		ln := sx("s_len", args[1].T)
+		if isString(args[1].Typ) {
+			ln = sx("strlen", args[1].T)
+		}
+		blSet(e, st, b, sx("+", blGet(e, st, b), ln))
+		n := e.sc.define("written", "Int", ln, "bytes written")
+		return &Val{Typ: c.Signature().Results(), Tup: []*Val{{T: n, Typ: types.Typ[types.Int], KnownLen: -1}, {T: "0", Typ: c.Signature().Results().At(1).Type(), KnownLen: -1}}, KnownLen: -1}
+	})
+	reg([]string{"(*bytes.Buffer).Grow"}, nil, func(e *Eng, fr *Frame, c *ssa.CallCommon, args []*Val, st *State, g string, pos token.Pos) *Val {
+		bufRecv(e, fr, c, args, g, pos)
+		e.oblige("panic", "bytes.Buffer.Grow: negative count", e.safety(fr), pos, g, sx(">=", args[1].T, "0"))
+		return unit
+	})
+	reg([]string{"(*bytes.Buffer).Truncate"}, []string{BL}, func(e *Eng, fr *Frame, c *ssa.CallCommon, args []*Val, st *State, g string, pos token.Pos) *Val {
+		b := bufRecv(e, fr, c, args, g, pos)
+		e.oblige("panic", "bytes.Buffer.Truncate: out of range", e.safety(fr), pos, g, and(sx(">=", args[1].T, "0"), sx("<=", args[1].T, blGet(e, st, b))))
+		blSet(e, st, b, args[1].T)
+		return unit
+	})
+	reg([]string{"(*bytes.Buffer).Reset"}, []string{BL}, func(e *Eng, fr *Frame, c *ssa.CallCommon, args []*Val, st *State, g string, pos token.Pos) *Val {
+		b := bufRecv(e, fr, c, args, g, pos)
+		blSet(e, st, b, "0")
+		return unit
+	})
+	// io.CopyN / io.Copy / binary.Write into a *bytes.Buffer destination
+	bufOfWriter := func(e *Eng, v *Val) string {
+		un := "unbox_" + typeKey(types.NewPointer(e.ld.typeOf("bytes.Buffer")))
+		e.sc.declare(un, fmt.Sprintf("(declare-fun %s (Int) Int)", un))
+		return sx(un, v.T)
+	}
+	isBufWriter := func(e *Eng, v *Val) string {
+		return and(not(eq(v.T, "0")), eq(sx("typeof", v.T), e.typeID(types.NewPointer(e.ld.typeOf("bytes.Buffer")))))
+	}
+	reg([]string{"io.CopyN"}, []string{BL}, func(e *Eng, fr *Frame, c *ssa.CallCommon, args []*Val, st *State, g string, pos token.Pos) *Val {
+		n := e.havocVal(st, "copied", types.Typ[types.Int64])
+		errv := e.havocVal(st, "copyerr", c.Signature().Results().At(1).Type())
+		e.sc.assume(and(sx("<=", "0", n.T), sx("<=", n.T, ite(sx(">", args[2].T, "0"), args[2].T, "0")), implies(eq(errv.T, "0"), eq(n.T, args[2].T))), "io.CopyN: 0 <= written <= n, exactly n when no error")
+		b := bufOfWriter(e, args[0])
+		cur := e.get(st, BL, "(Array Int Int)")
+		e.set(st, BL, "(Array Int Int)", ite(isBufWriter(e, args[0]), sto(cur, b, sx("+", sel(cur, b), n.T)), cur), "io.CopyN into buffer")
+		return &Val{Typ: c.Signature().Results(), Tup: []*Val{n, errv}, KnownLen: -1}
+	})
+	reg([]string{"io.Copy"}, []string{BL}, func(e *Eng, fr *Frame, c *ssa.CallCommon, args []*Val, st *State, g string, pos token.Pos) *Val {
+		n := e.havocVal(st, "copied", types.Typ[types.Int64])
+		errv := e.havocVal(st, "copyerr", c.Signature().Results().At(1).Type())
+		e.sc.assume(sx("<=", "0", n.T), "io.Copy: written >= 0")
+		b := bufOfWriter(e, args[0])
+		cur := e.get(st, BL, "(Array Int Int)")
+		e.set(st, BL, "(Array Int Int)", ite(isBufWriter(e, args[0]), sto(cur, b, sx("+", sel(cur, b), n.T)), cur), "io.Copy into buffer")
+		return &Val{Typ: c.Signature().Results(), Tup: []*Val{n, errv}, KnownLen: -1}
+	})
+
+	// ---- container/list: opaque; element values are constrained by an axiom in the contracts file ----
+	reg([]string{"(*container/list.List).Back", "(*container/list.List).Front"}, nil, func(e *Eng, fr *Frame, c *ssa.CallCommon, args []*Val, st *State, g string, pos token.Pos) *Val {
+		e.nilCheck(fr, nil, args[0].T, "list:"+descr(c.Args[0], 0), pos, g)
+		return e.havocResults(c, st)
+	})
+	reg([]string{"(*container/list.List).Remove"}, nil, func(e *Eng, fr *Frame, c *ssa.CallCommon, args []*Val, st *State, g string, pos token.Pos) *Val {
+		e.nilCheck(fr, nil, args[0].T, "list:"+descr(c.Args[0], 0), pos, g)
+		e.nilCheck(fr, nil, args[1].T, "element:"+descr(c.Args[1], 0), pos, g)
+		return e.havocResults(c, st)
+	})
+	reg([]string{"(*container/list.List).PushBack", "(*container/list.List).PushFront"}, nil, func(e *Eng, fr *Frame, c *ssa.CallCommon, args []*Val, st *State, g string, pos token.Pos) *Val {
+		e.nilCheck(fr, nil, args[0].T, "list:"+descr(c.Args[0], 0), pos, g)
+		return e.havocResults(c, st)
+	})
+	// ---- bufio ----
+	reg([]string{"(*bufio.Reader).Buffered"}, nil, func(e *Eng, fr *Frame, c *ssa.CallCommon, args []*Val, st *State, g string, pos token.Pos) *Val {
+		e.nilCheck(fr, nil, args[0].T, "reader:"+descr(c.Args[0], 0), pos, g)
+		n := e.sc.define("buffered", "Int", sel(e.get(st, "BR", "(Array Int Int)"), args[0].T), "(*bufio.Reader).Buffered")
+		e.sc.assume(sx(">=", n, "0"), "buffered count is non-negative")
+		return &Val{T: n, Typ: types.Typ[types.Int], KnownLen: -1}
+	})
+	reg([]string{"(*bufio.Reader).Peek"}, []string{"BR"}, func(e *Eng, fr *Frame, c *ssa.CallCommon, args []*Val, st *State, g string, pos token.Pos) *Val {
+		e.nilCheck(fr, nil, args[0].T, "reader:"+descr(c.Args[0], 0), pos, g)
+		res := e.havocResults(c, st)
+		// ghost: number of buffered bytes only grows by peeking, and a successful Peek(n) leaves at least n buffered
+		cur := e.get(st, "BR", "(Array Int Int)")
+		nb := e.sc.havoc("buffered_after", "Int")
+		e.sc.assume(and(sx(">=", nb, sel(cur, args[0].T)), implies(eq(res.Tup[1].T, "0"), sx(">=", nb, args[1].T))), "bufio.Reader: buffered bytes after Peek")
+		e.setStore(st, "BR", "(Array Int Int)", args[0].T, nb, "bufio buffered count")
+		e.sc.assume(implies(eq(res.Tup[1].T, "0"), eq(sx("s_len", res.Tup[0].T), args[1].T)), "bufio.Reader.Peek(n): exactly n bytes unless an error is returned")
+		e.sc.assume(sx("<=", sx("s_len", res.Tup[0].T), ite(sx(">", args[1].T, "0"), args[1].T, "0")), "bufio.Reader.Peek(n): at most n bytes")
+		return res
+	})
+	reg([]string{"io.ReadFull", "io.ReadAtLeast"}, []string{"@args"}, func(e *Eng, fr *Frame, c *ssa.CallCommon, args []*Val, st *State, g string, pos token.Pos) *Val {
+		e.havocThrough(st, args[1])
+		res := e.havocResults(c, st)
+		e.sc.assume(and(sx("<=", "0", res.Tup[0].T), sx("<=", res.Tup[0].T, sx("s_len", args[1].T))), "io.ReadFull/ReadAtLeast: 0 <= n <= len(buf)")
+		return res
+	})
+
 	// ---- encoding/binary ----
 	reg([]string{"(encoding/binary.bigEndian).Uint16"}, nil, func(e *Eng, fr *Frame, c *ssa.CallCommon, args []*Val, st *State, g string, pos token.Pos) *Val {
 		b := args[len(args)-1]
@@ -348,6 +507,25 @@ func init() {
 	reg([]string{"(encoding/binary.bigEndian).PutUint32"}, []string{"@args"}, put(4))
 }
 
+func init() {
+	// crypto/cipher.AEAD (assumed contract of AES-GCM): Open returns len(ciphertext)-16 bytes on success,
+	// Seal appends len(plaintext)+16 bytes to dst.
+	ifaceHandlers["cipher.AEAD.Open"] = func(e *Eng, fr *Frame, c *ssa.CallCommon, recv *Val, args []*Val, st *State, g string, pos token.Pos) *Val {
+		res := e.havocResults(c, st)
+		plain, errv := res.Tup[0], res.Tup[1]
+		e.sc.assume(implies(eq(errv.T, "0"), and(eq(sx("s_len", plain.T), sx("-", sx("+", sx("s_len", args[0].T), sx("s_len", args[2].T)), "16")), sx(">=", sx("s_len", args[2].T), "16"))), "AEAD.Open: plaintext is 16 bytes shorter than the ciphertext (appended to dst)")
+		return res
+	}
+	ifaceHandlers["cipher.AEAD.Seal"] = func(e *Eng, fr *Frame, c *ssa.CallCommon, recv *Val, args []*Val, st *State, g string, pos token.Pos) *Val {
+		res := e.havocResults(c, st)
+		e.sc.assume(eq(sx("s_len", res.T), sx("+", sx("s_len", args[0].T), sx("s_len", args[2].T), "16")), "AEAD.Seal: output is dst plus plaintext plus a 16-byte tag")
+		return res
+	}
+	ifaceHandlers["net.Addr.String"] = func(e *Eng, fr *Frame, c *ssa.CallCommon, recv *Val, args []*Val, st *State, g string, pos token.Pos) *Val {
+		return e.havocResults(c, st)
+	}
+}
+
 // metrics and similar packages: all calls are no-ops for our purposes.
 func isIgnoredExternal(key string) bool {
 	for _, p := range []string{"github.com/hashicorp/go-metrics", "github.com/armon/go-metrics"} {
@@ -356,4 +534,20 @@ func isIgnoredExternal(key string) bool {
 		}
 	}
 	return false
+}
+
+func termOfRef(v *Val) string {
+	if v.sortNameRaw() == "Slice" {
+		return "(s_arr " + v.T + ")"
+	}
+	return v.T
+}
+
+func (v *Val) sortNameRaw() string {
+	if v.Typ != nil {
+		if _, ok := types.Unalias(v.Typ).Underlying().(*types.Slice); ok {
+			return "Slice"
+		}
+	}
+	return "Int"
 }
